@@ -82,6 +82,15 @@ CHECKS = {
             'serialize/parse-xml and are compared by fn:deep-equal and by an independent structural comparison.',
             'Trusted: rv/models/jsonmodel.py, CPython json, libxml2 reading of the serialised XML; numbers compared as nearest doubles.',
             'DESIGN.md section 4 (C17)'),
+    'C18': ('exploration',
+            'runtime reference-model monitor + return-type contract monitor on every registered function signature',
+            'Typed values (ground-truth dynamic type labels from typed constructors, nodes of every kind, functions, maps, arrays) x generated '
+            'sequence types are judged by instance of / treat as / match_sequence_type and compared with an independent SequenceType matcher; '
+            'the subtype relation is checked for reflexivity, transitivity and soundness against the engine\'s own matcher; every registered '
+            'signature of the 2.0/3.0/3.1 parsers is called with generated arguments and each successful result is checked against the '
+            'declared return type (signatures never returning successfully are reported in the evidence).',
+            'Trusted: rv/models/seqtype.py (XDM type hierarchy, XPath 3.1 2.5.6 subtyping); schema types, xs:error and list types not generated.',
+            'DESIGN.md section 4 (C18)'),
 }
 
 PENDING_REASON = 'check not built yet in this session (runtime-monitoring design exists in DESIGN.md section 4); not claimed until its monitor runs clean'
